@@ -162,4 +162,455 @@ theorem step_AllE {P Q : Key → Entry → Prop} (w : World) (op : Op)
     · exact h.mono mono
     · exact (h.mono mono).filter _
 
+/-! ## what one lookup does to the entry it finds -/
+
+
+/-- what `packedApprox` can do to an entry -/
+theorem packedApprox_entry (e : Entry) (now : Int) :
+    (packedApprox e now).2 = e ∨
+    ((packedApprox e now).2 = repack e now ∧ e.ns ≠ 2 ∧ e.deadlineNano > now ∧ now - e.packedAt > SEC) := by
+  unfold packedApprox
+  by_cases h1 : e.deadlineNano ≤ now
+  · rw [if_pos h1]; exact Or.inl rfl
+  · rw [if_neg h1]
+    by_cases h2 : e.packed ∧ withinSlack e.packedTTL (curTtl e now)
+    · rw [if_pos h2]; exact Or.inl rfl
+    · rw [if_neg h2]
+      by_cases h3 : now - e.packedAt > SEC ∧ e.ns ≠ 2
+      · rw [if_pos h3]; exact Or.inr ⟨rfl, h3.2, by omega, h3.1⟩
+      · rw [if_neg h3]; exact Or.inl rfl
+
+/-- the TTL `packedApprox` shows, case by case -/
+theorem packedApprox_ttl (e : Entry) (now : Int) (ttl : Nat) (h : (packedApprox e now).1 = some ttl) :
+    e.deadlineNano > now ∧
+    ((e.packed = true ∧ withinSlack e.packedTTL (curTtl e now) = true ∧ ttl = e.packedTTL) ∨
+     ttl = curTtl e now ∨
+     (e.packed = true ∧ ttl = e.packedTTL ∧ (now - e.packedAt ≤ SEC ∨ e.ns = 2))) := by
+  unfold packedApprox at h
+  by_cases h1 : e.deadlineNano ≤ now
+  · rw [if_pos h1] at h; cases h
+  · rw [if_neg h1] at h
+    refine ⟨by omega, ?_⟩
+    by_cases h2 : e.packed ∧ withinSlack e.packedTTL (curTtl e now)
+    · rw [if_pos h2] at h; cases h; exact Or.inl ⟨h2.1, h2.2, rfl⟩
+    · rw [if_neg h2] at h
+      by_cases h3 : now - e.packedAt > SEC ∧ e.ns ≠ 2
+      · rw [if_pos h3] at h; cases h; exact Or.inr (Or.inl rfl)
+      · rw [if_neg h3] at h
+        by_cases h4 : e.packed = true
+        · simp only [h4, if_true] at h; cases h
+          refine Or.inr (Or.inr ⟨h4, rfl, ?_⟩)
+          by_cases h5 : e.ns = 2
+          · exact Or.inr h5
+          · left; by_cases h6 : now - e.packedAt > SEC
+            · exact absurd ⟨h6, h5⟩ h3
+            · omega
+        · simp [h4] at h
+
+
+
+theorem lookupEntry_cases (cfg : Cfg) (now : Int) (ign : Bool) (e0 : Entry) :
+    let e := touch e0 now
+    (lookupDeadline ign e0 > now ∧
+      ((∃ ttl, (packedApprox e now).1 = some ttl ∧
+          lookupEntry cfg now ign e0 =
+            (some (packedApprox e now).2, .hit (freshServed e ttl (e.nAns > 0 || e.ns == 1)))) ∨
+       ((packedApprox e now).1 = none ∧
+          lookupEntry cfg now ign e0 =
+            (some (packedApprox e now).2, .hit (freshServed e (ttlFromDeadline e.deadline now) (e.nAns > 0)))))) ∨
+    (lookupDeadline ign e0 ≤ now ∧ cfg.optimistic = true ∧ ∃ ttl, staleResp e now cfg.staleTtl = some ttl ∧
+        lookupEntry cfg now ign e0 =
+          (some { e with refreshing := true },
+            .hit ⟨e.id, e.src, e.ans, e.nAns, ttl, e.nAns > 0 || e.ns == 1, true, !e.refreshing⟩)) ∨
+    (lookupDeadline ign e0 ≤ now ∧ (cfg.optimistic = false ∨ staleResp e now cfg.staleTtl = none) ∧
+        lookupEntry cfg now ign e0 = (none, .miss)) := by
+  intro e
+  have hd : lookupDeadline ign (touch e0 now) = lookupDeadline ign e0 := by
+    simp [lookupDeadline, touch]
+  unfold lookupEntry
+  simp only []
+  by_cases h1 : lookupDeadline ign (touch e0 now) > now
+  · left
+    rw [if_pos h1]
+    refine ⟨by rw [← hd]; exact h1, ?_⟩
+    cases hp : (packedApprox (touch e0 now) now).1 with
+    | some ttl => left; exact ⟨ttl, rfl, rfl⟩
+    | none => right; exact ⟨rfl, rfl⟩
+  · right
+    rw [if_neg h1]
+    have h1' : lookupDeadline ign e0 ≤ now := by rw [← hd]; omega
+    by_cases h2 : cfg.optimistic = true
+    · rw [if_pos h2]
+      cases hs : staleResp (touch e0 now) now cfg.staleTtl with
+      | some ttl => left; exact ⟨h1', h2, ttl, rfl, rfl⟩
+      | none => right; exact ⟨h1', Or.inr rfl, rfl⟩
+    · rw [if_neg h2]
+      right; exact ⟨h1', Or.inl (by simpa using h2), rfl⟩
+
+/-! ## the per-entry invariant -/
+
+
+/-- per-entry invariant: structure (first four) and time (`T` = latest instant so far) -/
+structure Ok (T : Int) (k : Key) (e : Entry) : Prop where
+  dn : e.deadlineNano = e.deadline
+  dl : e.deadline = e.src.t + e.src.eff * SEC
+  key : e.src.key = k
+  pk : e.packed = true → e.ns ≠ 2
+  pat : e.packed = true → e.packedAt ≤ T
+  pttl : e.packed = true → e.packedTTL = ttlFromDeadline e.deadline e.packedAt
+  st : e.src.t ≤ T
+  rf : e.refreshing = true → e.deadline ≤ T
+  la : e.lastAccess ≤ T ∨ e.lastAccess = 0
+
+theorem Ok.mono {T T' : Int} {k : Key} {e : Entry} (hT : T ≤ T') (h : Ok T k e) : Ok T' k e :=
+  { h with
+    pat := fun hp => Int.le_trans (h.pat hp) hT
+    st := Int.le_trans h.st hT
+    rf := fun hr => Int.le_trans (h.rf hr) hT
+    la := h.la.elim (fun h => Or.inl (Int.le_trans h hT)) Or.inr }
+
+theorem Ok.of_insEntry (cfg : Cfg) (id : Nat) (now : Int) (key : Key) (host : List Char) (qtype : Nat)
+    (ttl : Int) (ans nAns ns : Nat) :
+    Ok now (insKey key host qtype) (insEntry cfg id now key host qtype ttl ans nAns ns) := by
+  constructor <;> simp [insEntry]
+  · intro h; simp [h]
+  · intro h; simp [h]
+
+theorem curTtl_eq (e : Entry) (now : Int) (hd : e.deadlineNano = e.deadline) (h : e.deadlineNano > now) :
+    curTtl e now = ttlFromDeadline e.deadline now := by
+  unfold curTtl ttlFromDeadline
+  rw [hd] at h ⊢
+  rw [if_neg (by omega)]
+
+theorem Ok.of_repack {T now : Int} {k : Key} {e : Entry} (hT : T ≤ now) (h : Ok T k e)
+    (hns : e.ns ≠ 2) (hd : e.deadlineNano > now) : Ok now k (repack e now) := by
+  have h' := h.mono hT
+  constructor <;> simp only [repack]
+  · exact h.dn
+  · exact h.dl
+  · exact h.key
+  · intro _; exact hns
+  · intro _; exact Int.le_refl _
+  · intro _; exact curTtl_eq e now h.dn hd
+  · exact h'.st
+  · exact h'.rf
+  · exact h'.la
+
+theorem Ok.of_touch {T now : Int} {k : Key} {e : Entry} (hT : T ≤ now) (h : Ok T k e) : Ok now k (touch e now) := by
+  have h' := h.mono hT
+  exact { h' with la := Or.inl (Int.le_refl _) }
+
+theorem staleResp_some {e : Entry} {now stale : Int} {ttl : Nat} (h : staleResp e now stale = some ttl) :
+    e.deadlineNano ≤ now ∧ (stale > 0 → now ≤ e.deadlineNano + stale * SEC) ∧ e.packed = true ∧ ttl = e.packedTTL := by
+  unfold staleResp at h
+  by_cases h1 : e.deadlineNano > now
+  · rw [if_pos h1] at h; cases h
+  · rw [if_neg h1] at h
+    by_cases h2 : stale > 0 ∧ now > e.deadlineNano + stale * SEC
+    · rw [if_pos h2] at h; cases h
+    · rw [if_neg h2] at h
+      by_cases h3 : e.packed = true
+      · rw [if_pos h3] at h; cases h
+        refine ⟨by omega, ?_, h3, rfl⟩
+        intro hs
+        by_cases h4 : now > e.deadlineNano + stale * SEC
+        · exact absurd ⟨hs, h4⟩ h2
+        · omega
+      · rw [if_neg h3] at h; cases h
+
+/-- one step keeps the per-entry invariant, given that the clock did not go backwards -/
+theorem step_Ok (T : Int) (w : World) (op : Op) (hpre : ∀ t, op.time = some t → T ≤ t)
+    (h : AllE (Ok T) w.st.entries) : AllE (Ok (op.time.getD T)) (step w op).1.st.entries := by
+  have hT : T ≤ op.time.getD T := by
+    cases ht : op.time with
+    | none => simp
+    | some t => simpa using hpre t ht
+  apply step_AllE (P := Ok T) (Q := Ok (op.time.getD T)) w op (fun k e hk => hk.mono hT) _ _ _ _ h
+  · intro now key host qtype ttl ans nAns ns hop
+    subst hop
+    exact Ok.of_insEntry ..
+  · intro now key ign e e' r hop _ hP hl
+    subst hop
+    have hT' : T ≤ now := hpre now rfl
+    simp only [Op.time, Option.getD_some]
+    have ht := hP.of_touch hT'
+    rcases lookupEntry_cases w.cfg now ign e with ⟨_, hc | hc⟩ | hc | hc
+    · obtain ⟨ttl, _, heq⟩ := hc
+      rw [heq] at hl; cases hl
+      rcases packedApprox_entry (touch e now) now with he | ⟨he, hns, hdn, _⟩
+      · rw [he]; exact ht
+      · rw [he]; exact ht.of_repack (Int.le_refl _) hns hdn
+    · obtain ⟨_, heq⟩ := hc
+      rw [heq] at hl; cases hl
+      rcases packedApprox_entry (touch e now) now with he | ⟨he, hns, hdn, _⟩
+      · rw [he]; exact ht
+      · rw [he]; exact ht.of_repack (Int.le_refl _) hns hdn
+    · obtain ⟨_, _, ttl, hs, heq⟩ := hc
+      rw [heq] at hl; cases hl
+      have hs' := staleResp_some hs
+      exact { ht with rf := fun _ => by have := ht.dn; simp only at this ⊢; omega }
+    · obtain ⟨_, _, heq⟩ := hc
+      rw [heq] at hl; cases hl
+  · intro c k e id hop hP _ _
+    subst hop
+    simp only [Op.time, Option.getD_none]
+    constructor <;> simp only [cloneForReload]
+    · rw [hP.dn]; simp
+    · exact hP.dl
+    · exact hP.key
+    · exact hP.pk
+    · intro hp; simp only [hp, if_true]; exact hP.pat hp
+    · intro hp; simp only [hp, if_true]; exact hP.pttl hp
+    · exact hP.st
+    · intro hf; cases hf
+    · exact hP.la
+  · intro now key e hop _ hP _ _
+    subst hop
+    have hT' : T ≤ now := hpre now rfl
+    simp only [Op.time, Option.getD_some]
+    have h' := hP.mono hT'
+    exact { h' with rf := fun hf => by cases hf }
+
+/-! ## histories -/
+
+
+theorem run_nil (w : World) : run w [] = (w, []) := rfl
+
+theorem run_cons (w : World) (op : Op) (ops : List Op) :
+    run w (op :: ops) = ((run (step w op).1 ops).1, (step w op).2 :: (run (step w op).1 ops).2) := rfl
+
+theorem run_append (w : World) (a b : List Op) :
+    run w (a ++ b) = ((run (run w a).1 b).1, (run w a).2 ++ (run (run w a).1 b).2) := by
+  induction a generalizing w with
+  | nil => simp [run_nil]
+  | cons op a ih => simp only [List.cons_append, run_cons, ih, List.cons_append]
+
+/-- the latest instant of a history that starts at `t0` -/
+def lastTime (t0 : Int) : List Op → Int
+  | [] => t0
+  | op :: ops => lastTime (op.time.getD t0) ops
+
+theorem Mono.head {t0 : Int} {op : Op} {ops : List Op} (h : Mono t0 (op :: ops)) :
+    (∀ t, op.time = some t → t0 ≤ t) ∧ Mono (op.time.getD t0) ops := by
+  unfold Mono at h
+  cases ht : op.time with
+  | none => rw [ht] at h; simpa using h
+  | some t => rw [ht] at h; simp only at h; exact ⟨fun t' h' => by cases h'; exact h.1, by simpa using h.2⟩
+
+theorem run_Ok (ops : List Op) (T : Int) (w : World) (hm : Mono T ops) (h : AllE (Ok T) w.st.entries) :
+    AllE (Ok (lastTime T ops)) (run w ops).1.st.entries := by
+  induction ops generalizing T w with
+  | nil => exact h
+  | cons op ops ih =>
+    rw [run_cons]
+    exact ih _ _ hm.head.2 (step_Ok T w op hm.head.1 h)
+
+theorem Mono.le_lastTime {t0 : Int} {ops : List Op} (h : Mono t0 ops) : t0 ≤ lastTime t0 ops := by
+  induction ops generalizing t0 with
+  | nil => exact Int.le_refl _
+  | cons op ops ih =>
+    have := ih h.head.2
+    have h1 := h.head.1
+    simp only [lastTime]
+    cases ht : op.time with
+    | none => simpa [ht] using this
+    | some t => rw [ht] at this; simp only [Option.getD_some] at this ⊢; exact Int.le_trans (h1 t ht) this
+
+theorem AllE_empty (P : Key → Entry → Prop) : AllE P State.empty.entries := by
+  intro p hp; simp [State.empty] at hp
+
+/-- the result of a lookup step in terms of `lookupEntry` -/
+theorem step_lookup_hit {w : World} {now : Int} {key : Key} {ign : Bool} {sv : Served}
+    (h : (step w (.lookup now key ign)).2 = .hit sv) :
+    ∃ e0, find w.st.entries key = some e0 ∧ (lookupEntry w.cfg now ign e0).2 = .hit sv := by
+  simp only [step, State.lookup] at h
+  cases hf : find w.st.entries key with
+  | none => rw [hf] at h; cases h
+  | some e0 =>
+    refine ⟨e0, rfl, ?_⟩
+    rw [hf] at h
+    simp only at h
+    cases hl : lookupEntry w.cfg now ign e0 with
+    | mk oe r =>
+      rw [hl] at h
+      cases oe <;> simpa using h
+
+/-! ## the TTL shown for a fresh answer -/
+
+
+theorem ttlFromDeadline_le (d now : Int) : ttlFromDeadline d now ≤ max 1 ((d - now) / SEC).toNat := by
+  unfold ttlFromDeadline
+  by_cases hh : d ≤ now
+  · rw [if_pos hh]; omega
+  · rw [if_neg hh]; omega
+
+theorem ttlFromDeadline_shift (d p now : Int) (h1 : p ≤ now) (h2 : now - p ≤ SEC) :
+    ttlFromDeadline d p ≤ max 1 ((d - now) / SEC).toNat + 1 := by
+  unfold ttlFromDeadline
+  simp only [SEC] at *
+  by_cases hh : d ≤ p
+  · rw [if_pos hh]; omega
+  · rw [if_neg hh]; omega
+
+theorem withinSlack_le {a b : Nat} (h : withinSlack a b = true) : a ≤ b + SLACK := by
+  unfold withinSlack at h
+  by_cases hh : a ≥ b
+  · rw [if_pos hh] at h; simp at h; omega
+  · omega
+
+@[simp] theorem touch_deadline (e : Entry) (now : Int) : (touch e now).deadline = e.deadline := rfl
+@[simp] theorem touch_packedAt (e : Entry) (now : Int) : (touch e now).packedAt = e.packedAt := rfl
+@[simp] theorem touch_packedTTL (e : Entry) (now : Int) : (touch e now).packedTTL = e.packedTTL := rfl
+@[simp] theorem touch_deadlineNano (e : Entry) (now : Int) : (touch e now).deadlineNano = e.deadlineNano := rfl
+
+/-- TTL shown on the fresh path, on an entry satisfying the invariant, at an instant not before `T` -/
+theorem fresh_ttl_bound {T now : Int} {k : Key} {e0 : Entry} {cfg : Cfg} {ign : Bool} {sv : Served}
+    (hok : Ok T k e0) (hT : T ≤ now) (h : (lookupEntry cfg now ign e0).2 = .hit sv) (hs : sv.stale = false) :
+    sv.ttl ≤ max 1 ((e0.deadline - now) / SEC).toNat + SLACK ∧ sv.src = e0.src ∧ sv.eid = e0.id ∧
+    sv.ans = e0.ans ∧ sv.nAns = e0.nAns ∧ lookupDeadline ign e0 > now ∧ sv.refresh = false := by
+  have ht := hok.of_touch hT
+  rcases lookupEntry_cases cfg now ign e0 with ⟨hd, hc | hc⟩ | hc | hc
+  · obtain ⟨ttl, hp, heq⟩ := hc
+    rw [heq] at h; cases h
+    refine ⟨?_, rfl, rfl, rfl, rfl, hd, rfl⟩
+    simp only [freshServed]
+    obtain ⟨hdn, hcases⟩ := packedApprox_ttl _ _ _ hp
+    have hcur : curTtl (touch e0 now) now = max 1 ((e0.deadline - now) / SEC).toNat := by
+      simp only [curTtl, touch_deadlineNano]; rw [hok.dn]
+    rcases hcases with ⟨_, hw, rfl⟩ | rfl | ⟨hpk, rfl, hg⟩
+    · rw [hcur] at hw
+      exact withinSlack_le hw
+    · rw [hcur]; omega
+    · rcases hg with hg | hg
+      · have h1 := ht.pttl hpk
+        have h2 := ht.pat hpk
+        rw [touch_packedTTL, touch_deadline, touch_packedAt] at h1
+        rw [touch_packedAt] at h2 hg
+        rw [touch_packedTTL, h1]
+        have := ttlFromDeadline_shift e0.deadline e0.packedAt now h2 hg
+        simp only [SLACK]; omega
+      · exact absurd hg (ht.pk hpk)
+  · obtain ⟨_, heq⟩ := hc
+    rw [heq] at h; cases h
+    refine ⟨?_, rfl, rfl, rfl, rfl, hd, rfl⟩
+    simp only [freshServed, touch_deadline]
+    have := ttlFromDeadline_le e0.deadline now
+    omega
+  · obtain ⟨_, _, ttl, _, heq⟩ := hc
+    rw [heq] at h; cases h; cases hs
+  · obtain ⟨_, _, heq⟩ := hc
+    rw [heq] at h; cases h
+
+
+
+/-- a stale answer: what must have been true of the entry and the configuration -/
+theorem stale_facts {T now : Int} {k : Key} {e0 : Entry} {cfg : Cfg} {ign : Bool} {sv : Served}
+    (hok : Ok T k e0) (h : (lookupEntry cfg now ign e0).2 = .hit sv) (hs : sv.stale = true) :
+    cfg.optimistic = true ∧ e0.deadline ≤ now ∧ (cfg.staleTtl > 0 → now ≤ e0.deadline + cfg.staleTtl * SEC) ∧
+    sv.src = e0.src ∧ sv.eid = e0.id ∧ sv.ans = e0.ans ∧ sv.nAns = e0.nAns ∧ sv.refresh = !e0.refreshing ∧
+    sv.ttl = e0.packedTTL ∧ e0.packed = true := by
+  rcases lookupEntry_cases cfg now ign e0 with ⟨hd, hc | hc⟩ | hc | hc
+  · obtain ⟨ttl, hp, heq⟩ := hc
+    rw [heq] at h; cases h; cases hs
+  · obtain ⟨_, heq⟩ := hc
+    rw [heq] at h; cases h; cases hs
+  · obtain ⟨_, hopt, ttl, hst, heq⟩ := hc
+    rw [heq] at h; cases h
+    obtain ⟨h1, h2, h3, h4⟩ := staleResp_some hst
+    rw [touch_deadlineNano, hok.dn] at h1 h2
+    exact ⟨hopt, h1, h2, rfl, rfl, rfl, rfl, rfl, h4, h3⟩
+  · obtain ⟨_, _, heq⟩ := hc
+    rw [heq] at h; cases h
+
+/-- fields a lookup never changes -/
+theorem lookupEntry_preserves {cfg : Cfg} {now : Int} {ign : Bool} {e e' : Entry} {r : LRes}
+    (h : lookupEntry cfg now ign e = (some e', r)) :
+    e'.src = e.src ∧ e'.ans = e.ans ∧ e'.nAns = e.nAns ∧ e'.ns = e.ns ∧ e'.id = e.id ∧ e'.deadline = e.deadline ∧
+    e'.orig = e.orig ∧ e'.lastAccess = now ∧ (e.refreshing = true → e'.refreshing = true) := by
+  have hpa : ∀ x : Entry, x = touch e now ∨ x = repack (touch e now) now →
+      x.src = e.src ∧ x.ans = e.ans ∧ x.nAns = e.nAns ∧ x.ns = e.ns ∧ x.id = e.id ∧ x.deadline = e.deadline ∧
+      x.orig = e.orig ∧ x.lastAccess = now ∧ (e.refreshing = true → x.refreshing = true) := by
+    intro x hx
+    rcases hx with rfl | rfl <;> simp [touch, repack]
+  have hpe : (packedApprox (touch e now) now).2 = touch e now ∨
+      (packedApprox (touch e now) now).2 = repack (touch e now) now := by
+    rcases packedApprox_entry (touch e now) now with he | ⟨he, _⟩
+    · exact Or.inl he
+    · exact Or.inr he
+  rcases lookupEntry_cases cfg now ign e with ⟨_, hc | hc⟩ | hc | hc
+  · obtain ⟨ttl, _, heq⟩ := hc
+    rw [heq] at h; cases h; exact hpa _ hpe
+  · obtain ⟨_, heq⟩ := hc
+    rw [heq] at h; cases h; exact hpa _ hpe
+  · obtain ⟨_, _, ttl, _, heq⟩ := hc
+    rw [heq] at h; cases h; simp [touch]
+  · obtain ⟨_, _, heq⟩ := hc
+    rw [heq] at h; cases h
+
+/-! ## every entry comes from an insert of the history -/
+
+def cfgOfOp : Op → Option Cfg
+  | .reload c => some c
+  | .reconf c => some c
+  | _ => none
+
+/-- the configurations in force at some point of a history that starts under `c0` -/
+def cfgsOf (c0 : Cfg) (ops : List Op) : List Cfg := c0 :: ops.filterMap cfgOfOp
+
+/-- the entry stored under `k` was created by an insert operation of `past`, under the key `k`, with
+the answers it still has, its `Deadline` TTL being the caller's TTL or the fixed TTL of a
+configuration that was in force -/
+def SrcOk (cfgs : List Cfg) (past : List Op) (k : Key) (e : Entry) : Prop :=
+  ∃ key0 host0 ns c,
+    Op.insert e.src.t key0 host0 e.src.qtype e.src.ttl e.ans e.nAns ns false ∈ past ∧ c ∈ cfgs ∧
+    e.src.host = (splitHost host0).2 ∧ k = insKey key0 host0 e.src.qtype ∧
+    e.src.eff = effTtl c e.src.host e.src.ttl
+
+theorem SrcOk.mono {cfgs cfgs' : List Cfg} {past past' : List Op} {k : Key} {e : Entry}
+    (hc : ∀ c ∈ cfgs, c ∈ cfgs') (hp : ∀ o ∈ past, o ∈ past') (h : SrcOk cfgs past k e) : SrcOk cfgs' past' k e := by
+  obtain ⟨key0, host0, ns, c, h1, h2, h3⟩ := h
+  exact ⟨key0, host0, ns, c, hp _ h1, hc _ h2, h3⟩
+
+theorem SrcOk.congr {cfgs : List Cfg} {past : List Op} {k : Key} {e e' : Entry}
+    (hs : e'.src = e.src) (ha : e'.ans = e.ans) (hn : e'.nAns = e.nAns) (h : SrcOk cfgs past k e) :
+    SrcOk cfgs past k e' := by
+  unfold SrcOk at *
+  rw [hs, ha, hn]; exact h
+
+theorem step_SrcOk (cfgs : List Cfg) (past : List Op) (w : World) (op : Op) (hc : w.cfg ∈ cfgs)
+    (h : AllE (SrcOk cfgs past) w.st.entries) :
+    (step w op).1.cfg ∈ cfgs ++ (cfgOfOp op).toList ∧
+    AllE (SrcOk (cfgs ++ (cfgOfOp op).toList) (past ++ [op])) (step w op).1.st.entries := by
+  constructor
+  · cases op <;> simp [step, cfgOfOp, hc]
+  · have hm : ∀ k e, SrcOk cfgs past k e → SrcOk (cfgs ++ (cfgOfOp op).toList) (past ++ [op]) k e :=
+      fun k e hk => hk.mono (fun c hc => List.mem_append_left _ hc) (fun o ho => List.mem_append_left _ ho)
+    apply step_AllE (P := SrcOk cfgs past) w op hm _ _ _ _ h
+    · intro now key host qtype ttl ans nAns ns hop
+      subst hop
+      exact ⟨key, host, ns, w.cfg, by simp [insEntry], List.mem_append_left _ hc, rfl, rfl, rfl⟩
+    · intro now key ign e e' r _ _ hP hl
+      obtain ⟨h1, h2, h3, _⟩ := lookupEntry_preserves hl
+      exact (hm _ _ hP).congr h1 h2 h3
+    · intro c k e id _ hP _ _
+      exact (hm _ _ hP).congr rfl rfl rfl
+    · intro now key e _ _ hP _ _
+      exact (hm _ _ hP).congr rfl rfl rfl
+
+theorem run_SrcOk (ops : List Op) (cfgs : List Cfg) (past : List Op) (w : World) (hc : w.cfg ∈ cfgs)
+    (h : AllE (SrcOk cfgs past) w.st.entries) :
+    (run w ops).1.cfg ∈ cfgs ++ ops.filterMap cfgOfOp ∧
+    AllE (SrcOk (cfgs ++ ops.filterMap cfgOfOp) (past ++ ops)) (run w ops).1.st.entries := by
+  induction ops generalizing cfgs past w with
+  | nil => simpa using ⟨hc, h⟩
+  | cons op ops ih =>
+    rw [run_cons]
+    obtain ⟨h1, h2⟩ := step_SrcOk cfgs past w op hc h
+    have := ih _ _ _ h1 h2
+    have e1 : cfgs ++ (cfgOfOp op).toList ++ ops.filterMap cfgOfOp = cfgs ++ (op :: ops).filterMap cfgOfOp := by
+      cases hh : cfgOfOp op <;> simp [hh]
+    have e2 : past ++ [op] ++ ops = past ++ op :: ops := by simp
+    rw [e1, e2] at this
+    exact this
+
 end DaeVerif.C08
